@@ -27,7 +27,8 @@ RULE = ("case = (client kind in Client/PooledClient/single-server HashClient (po
         "key object with that key's value; every command on the wire carries prefix+key and no returned key carries "
         "the prefix. Twins (consecutive items of different type with byte-identical serialized payload, around the compression threshold) are stored through one client and one serializer object; optionally the same items are fetched again under the other spelling (str <-> bytes) of their keys and then under the first spelling again, each answer keyed by that call's own key objects. Optionally the object has a past before the store: its connection was closed, or its server was away long enough to be given up and came back. Non-trivial: the value contains CR LF or is >= 4094 bytes, or the fetch is multi-key with >= 2 "
         "present keys, or a prefix is configured, or the key collection is not a list. Legacy spellings: the same serializer handed over as serializer=/deserializer= functions, and a text cache configured with a deserializer function alone. Stacks around a subclass that seals values in and unseals them out, with the dict-style API as store and fetch operation; values whose pickling serializes another value through the same serializer object; key collections that can be iterated once without being their own iterator. The server may answer in a dialect that says the same thing (one or two blanks or a tab in the VALUE line, a trailing blank, items in another order)."
-        + ' Every other single-key fetch names a default for a miss; a family of stored values that look like a miss (None, 0, False, empty text / bytes / containers) is read through get / gat / gets / gats / item syntax / get_many.')
+        + ' Every other single-key fetch names a default for a miss; a family of stored values that look like a miss (None, 0, False, empty text / bytes / containers) is read through get / gat / gets / gats / item syntax / get_many.'
+        + ' Every number of keys: one multi-key fetch of n keys for every n from 1 to 520 (thorough 2100, and round numbers up to 16384), stored with set_many (noreply on/off by n); fetch, key collection type, stack, prefix and reply segmentation rotate with n; every key comes back exactly once with its own value.')
 MANIFEST = {
     "category": "exploration",
     "technique": "Hypothesis-generated round trips through a memcached model behind a fake socket layer (round-trip oracle, wire-log invariants), with an enumerated grid of value sizes x serializers x key-collection types",
